@@ -1421,6 +1421,9 @@ class UTPM(Ring, RawAlgorithmsMixIn):
 
         FIXME: theory tells us to check first coefficient if the zero'th coefficient is zero
         """
+        if numpy.iscomplexobj(self.data):
+            # the modulus (the real-valued rule below would compare complex numbers)
+            return self.__class__.absolute(self)
         # check if zero order coeff is smaller than 0
         tmp = self.data[0] < 0
         retval = self.clone()
